@@ -46,8 +46,8 @@ def main():
         env = dict(os.environ, PYTHONPATH=os.path.join(wt, "src"))
         demo_src = open(os.path.join(out, "demo.py")).read()
         # the demo may mention the agent's worktree path; point it at ours
-        agent_wt = os.path.basename(os.path.normpath(out)).replace("-out", "")
-        demo_src = demo_src.replace(f"/tmp/seed/{agent_wt}", wt)
+        import re
+        demo_src = re.sub(r"/tmp/seed2?/C\d\d(?!-out)", wt, demo_src)
         demo = os.path.join(tmp, "demo.py")
         open(demo, "w").write(demo_src)
 
